@@ -300,6 +300,8 @@ class Materialised:
                 e = f"typing.Final[{e}]"
             if f.get("notreq") and fl in ("typeddict", "typeddict_partial"):
                 e = f"typing.NotRequired[{e}]"
+            if f.get("req") and fl == "typeddict_partial":
+                e = f"typing.Required[{e}]"
             if has_kind(f["t"], "ref") and not future and f.get("quote_whole") and not has_kind(f["t"], "literal"):
                 e = repr(e.replace("'", ""))
             return e
@@ -669,12 +671,12 @@ def values(spec, mat: Materialised, *, budget: int = 3, json64: bool = False, ma
             try:
                 fv = V(f["t"])
             except _Exhausted:
-                if f.get("default") or f.get("notreq") or fl == "typeddict_partial":
+                if f.get("default") or f.get("notreq") or (fl == "typeddict_partial" and not f.get("req")):
                     continue
                 raise
             parts[f["n"]] = fv
         opt = {f["n"] for f in spec["fields"]
-               if (f.get("notreq") or fl == "typeddict_partial") and fl in ("typeddict", "typeddict_partial")}
+               if (f.get("notreq") or (fl == "typeddict_partial" and not f.get("req"))) and fl in ("typeddict", "typeddict_partial")}
 
         def build(kw, drop):
             kw = {n: v for n, v in kw.items() if not (n in opt and n in drop)}
@@ -795,7 +797,7 @@ def conforms(spec, r, mat: Materialised, path="$", _depth=0, strict=False) -> st
             if strict and set(r) - {f["n"] for f in spec["fields"]}:
                 return f"{path}: undeclared keys in TypedDict {spec['name']}"
             for f in spec["fields"]:
-                required = fl == "typeddict" and not f.get("notreq")
+                required = (fl == "typeddict" and not f.get("notreq")) or (fl == "typeddict_partial" and bool(f.get("req")))
                 if f["n"] not in r:
                     if required:
                         return f"{path}: required key {f['n']!r} missing from TypedDict {spec['name']}"
@@ -1165,6 +1167,9 @@ def class_specs(draw, names, *, max_depth, hashable, open_classes, kw):
         # (PEP 563 limitation documented for __required_keys__), so never under `future`.
         if fl in ("typeddict",) and not future and not has_kind(t, "ref") and draw(st.integers(0, 3)) == 0:
             f["notreq"] = True
+        # ... and so is Required[...] in a total=False TypedDict
+        if fl == "typeddict_partial" and not future and not has_kind(t, "ref") and draw(st.integers(0, 2)) == 0:
+            f["req"] = True
         if fl in ("dataclass", "plain") and draw(st.integers(0, 6)) == 0 and not has_kind(t, "ref"):
             f["final"] = True
         if has_kind(t, "ref") and draw(st.booleans()):
